@@ -1,7 +1,7 @@
 """C06 — ring engine (ChordKV / Trace_ChordKV); see ringcheck.py."""
 import ringcheck
 
-KINDS = set("OneMembershipOp NoStuck".split())
+KINDS = set("OneMembershipOp JoinLockHeld NoStuck".split())
 
 def run(ck):
     ringcheck.engine(ck, "C06", KINDS)
